@@ -13,6 +13,7 @@ import (
 	"fmt"
 	"math/rand"
 	"os"
+	"strings"
 
 	"wa-lang.org/wa/internal/lsp/diff"
 )
@@ -32,16 +33,18 @@ type hunk struct {
 	Lines []hline `json:"lines"`
 }
 type record struct {
-	Fn         string `json:"fn"`
-	Ctx        int    `json:"ctx"`
-	B          []int  `json:"b"`
-	A          []int  `json:"a"`
-	Edits      []edit `json:"edits"`
-	Applied    []int  `json:"applied"`
-	ApplyErr   string `json:"applyErr"`
-	Hunks      []hunk `json:"hunks"`
-	UnifiedErr string `json:"unifiedErr"`
-	Panic      string `json:"panic,omitempty"`
+	Fn         string    `json:"fn"`
+	Ctx        int       `json:"ctx"`
+	B          []int     `json:"b"`
+	A          []int     `json:"a"`
+	Edits      []edit    `json:"edits"`
+	Applied    []int     `json:"applied"`
+	ApplyErr   string    `json:"applyErr"`
+	Hunks      []hunk    `json:"hunks"`
+	TLines     [][]hline `json:"tlines"` // the hunk lines a reader parses out of the rendered text (ToUnified)
+	TextErr    string    `json:"textErr"`
+	UnifiedErr string    `json:"unifiedErr"`
+	Panic      string    `json:"panic,omitempty"`
 }
 
 func ints(s string) []int {
@@ -53,7 +56,7 @@ func ints(s string) []int {
 }
 
 func observe(fn string, before, after string, ctx int) (rec record) {
-	rec = record{Fn: fn, Ctx: ctx, B: ints(before), A: ints(after), Edits: []edit{}, Applied: []int{}, Hunks: []hunk{}}
+	rec = record{Fn: fn, Ctx: ctx, B: ints(before), A: ints(after), Edits: []edit{}, Applied: []int{}, Hunks: []hunk{}, TLines: [][]hline{}}
 	defer func() {
 		if e := recover(); e != nil {
 			rec.Panic = fmt.Sprint(e)
@@ -84,6 +87,14 @@ func observe(fn string, before, after string, ctx int) (rec record) {
 			vh.Lines = append(vh.Lines, hline{l.Kind, ints(l.Content)})
 		}
 		rec.Hunks = append(rec.Hunks, vh)
+	}
+	if err == nil {
+		txt, terr := diff.ToUnified("a", "b", before, es, ctx)
+		if terr != nil {
+			rec.TextErr = terr.Error()
+		} else {
+			rec.TLines, rec.TextErr = parseUnified(txt)
+		}
 	}
 	return rec
 }
@@ -179,4 +190,39 @@ func main() {
 	default:
 		os.Exit(2)
 	}
+}
+
+// parseUnified reads a rendered unified diff the way a patch reader does: lines end at LF (an unterminated last
+// line is still a line), the first character is the kind, "\\ No newline at end of file" takes the LF off the
+// line before it.
+func parseUnified(txt string) ([][]hline, string) {
+	out := [][]hline{}
+	if txt == "" {
+		return out, ""
+	}
+	parts := strings.Split(txt, "\n")
+	if parts[len(parts)-1] == "" {
+		parts = parts[:len(parts)-1]
+	}
+	if len(parts) < 2 || !strings.HasPrefix(parts[0], "--- ") || !strings.HasPrefix(parts[1], "+++ ") {
+		return out, "no header"
+	}
+	for _, ln := range parts[2:] {
+		switch {
+		case strings.HasPrefix(ln, "@@"):
+			out = append(out, []hline{})
+		case ln == "\\ No newline at end of file":
+			if len(out) == 0 || len(out[len(out)-1]) == 0 {
+				return out, "marker without a line"
+			}
+			h := out[len(out)-1]
+			c := h[len(h)-1].C
+			h[len(h)-1].C = c[:len(c)-1]
+		case len(out) > 0 && ln != "" && (ln[0] == ' ' || ln[0] == '-' || ln[0] == '+'):
+			out[len(out)-1] = append(out[len(out)-1], hline{string(ln[0]), ints(ln[1:] + "\n")})
+		default:
+			return out, "line is neither a hunk header nor a hunk line"
+		}
+	}
+	return out, ""
 }
